@@ -66,6 +66,22 @@ func (f *c04fixture) tree(root bool, k int) c04tree {
 	return ct
 }
 
+// freshCopy builds the tree of tree(root, k) again: an equal tree, other objects.
+func (f *c04fixture) freshCopy(root bool, k int) *onet.Tree {
+	if root {
+		parent := []int{-1}
+		member := []int{0}
+		for i := 0; i < k; i++ {
+			parent = append(parent, 0)
+			member = append(member, i+1)
+		}
+		t, _ := fix.BuildTree(f.cl.Roster, parent, member)
+		return t
+	}
+	t, _ := fix.Fan(f.cl.Roster, k)
+	return t
+}
+
 func c04show(target *onet.TreeNode, ds []fix.Delivery) string {
 	if len(ds) == 0 {
 		return "-"
@@ -134,18 +150,7 @@ func c04exec(c *h.Ctx, cs *h.Case) {
 		case len(tk) == 2 && tk[1] == "rereg":
 			// the server learns an equal copy of the tree again (every service that generates its
 			// tree per run does this): the stored Tree object is replaced, the tree is the same
-			var nt *onet.Tree
-			if isRoot {
-				parent := []int{-1}
-				member := []int{0}
-				for i := 0; i < k; i++ {
-					parent = append(parent, 0)
-					member = append(member, i+1)
-				}
-				nt, _ = fix.BuildTree(f.cl.Roster, parent, member)
-			} else {
-				nt, _ = fix.Fan(f.cl.Roster, k)
-			}
+			nt := f.freshCopy(isRoot, k)
 			f.cl.Overlay(ct.srv).RegisterTree(nt)
 			cs.Impl = append(cs.Impl, "ok")
 		case len(tk) == 5 && tk[1] == "msg":
